@@ -184,48 +184,56 @@ def run_case(case):
     related = set()
     states = []
     n = 0
-    for op in pre:
-        res.transitions += 1
-        n += 1
-        ps = [o for k, o in live if k == "P"]
-        cs = [o for k, o in live if k == "C"]
-        es = [o for k, o in live if k == "E"]
-        if op == "newP":
-            live.append(("P", _O.VPerson(f"p{n}")))
-        elif op == "newC":
-            live.append(("C", _O.VCompany(f"c{n}")))
-        elif op == "newE":
-            if ps:
-                live.append(("E", _O.VCEO(ps[-1])))
-        elif op in ("rel_w", "rel_m", "rel_s") and ps and cs:
-            p, c = ps[-1], cs[-1]
-            if op == "rel_w":
-                if p.works_for is None:
-                    p.works_for = c
-            elif op == "rel_m":
-                p.member_of.append(c)
-            else:
-                c.members.add(p)
-            related.add(id(p))
-            related.add(id(c))
-        elif op == "rel_h" and es and cs:
-            if es[-1].head_of is None and (es[-1].person.works_for is None or es[-1].person.works_for is cs[-1]):
-                es[-1].head_of = cs[-1]
-                related.add(id(es[-1]))
-        elif op in ("drop_old", "drop_new") and live:
-            k, o = live.pop(0 if op == "drop_old" else -1)
-            r = weakref.ref(o)
-            was_related = id(o) in related
-            del o, ps, cs, es
-            if r() is not None:
-                gc.collect()
-        elif op == "sweep":
-            before = len(SymbolGraph().wrapped_instances)
-            SymbolGraph().remove_dead_instances()
-            if len(SymbolGraph().wrapped_instances) < before and related:
-                swept_related = True
+    try:
+        for op in pre:
+            res.transitions += 1
+            n += 1
+            ps = [o for k, o in live if k == "P"]
+            cs = [o for k, o in live if k == "C"]
+            es = [o for k, o in live if k == "E"]
+            if op == "newP":
+                live.append(("P", _O.VPerson(f"p{n}")))
+            elif op == "newC":
+                live.append(("C", _O.VCompany(f"c{n}")))
+            elif op == "newE":
+                if ps:
+                    live.append(("E", _O.VCEO(ps[-1])))
+            elif op in ("rel_w", "rel_m", "rel_s") and ps and cs:
+                p, c = ps[-1], cs[-1]
+                if op == "rel_w":
+                    if p.works_for is None:
+                        p.works_for = c
+                elif op == "rel_m":
+                    p.member_of.append(c)
+                else:
+                    c.members.add(p)
+                related.add(id(p))
+                related.add(id(c))
+            elif op == "rel_h" and es and cs:
+                if es[-1].head_of is None and (es[-1].person.works_for is None or es[-1].person.works_for is cs[-1]):
+                    es[-1].head_of = cs[-1]
+                    related.add(id(es[-1]))
+            elif op in ("drop_old", "drop_new") and live:
+                k, o = live.pop(0 if op == "drop_old" else -1)
+                r = weakref.ref(o)
+                was_related = id(o) in related
+                del o, ps, cs, es
+                if r() is not None:
+                    gc.collect()
+            elif op == "sweep":
+                before = len(SymbolGraph().wrapped_instances)
+                SymbolGraph().remove_dead_instances()
+                if len(SymbolGraph().wrapped_instances) < before and related:
+                    swept_related = True
+            ps = cs = es = None
+            states.append((len(SymbolGraph().wrapped_instances), len(list(SymbolGraph().relations())), op))
+    except Exception as e:
+        # every prefix operation is a legal assertion on live objects; the same operation succeeds on a fresh graph
+        res.failures.append(Failure("crash", f"prefix {pre}: operation #{n} ({op}) raised {type(e).__name__}: {e}"))
         ps = cs = es = None
-        states.append((len(SymbolGraph().wrapped_instances), len(list(SymbolGraph().relations())), op))
+        live.clear()
+        gc.freeze()
+        return res
     # close the prefix: every prefix object dies
     had_objects = bool(live)
     refs = [weakref.ref(o) for k, o in live]
